@@ -97,6 +97,7 @@ def compprog_contracts():
         'from_node': A(ret='r', ensures=[('same_program', 'r.inner == other.inner && r.details == other.details')], props=P17 + ('C10',)),
         'with_code_points': A(ret='r', ensures=[('code_without_identifiers', f'node_view(r.inner) == SNode::Code(bytecode@) && r.details@ == {EMPTY}')],
                               mcalls=MC, props=P10 + ('C17',)),
+        'with_bytecode': A(stub=True, ret='r', ensures=[('ASSUMED_resolved_code_wrapped_point_by_point', f'node_view(r.inner) == SNode::Code(bytecode@.map_values(|b: ByteCode| PreResolvedCodePoint::Bytecode(b))) && r.details@ == {EMPTY}')]),
         'details': A(ret='r', ensures=[('def', '*r == self.details')], props=P17),
         'into_parts': A(ret='r', ensures=[('def', 'r.0 == self.inner && r.1 == self.details')], props=P17 + ('C10',)),
         'with_const': A(ret='r', ensures=[('constant_without_identifiers', f'node_view(r.inner) == SNode::Const(val) && r.details@ == {EMPTY}')], props=('C09', 'C17', 'C01')),
